@@ -151,7 +151,7 @@ def variants_sig(s):
 FOREIGN = [('None', None, False), ('str', 'a, b', False), ('int', 3, False), ('tuple', (1, 2), False), ('indifferent-object', Indifferent(), False)]
 
 
-def check_signature_object(s, origin, stats, enum=False, shapes=None):
+def check_signature_object(s, origin, stats, enum=False, shapes=None, twin=None):
     text = str(s)
     case = {'signature': text, 'origin': origin}
     p = plain_sig(s)
@@ -180,11 +180,13 @@ def check_signature_object(s, origin, stats, enum=False, shapes=None):
                     if a != b:
                         stats.fail('C14/%s' % meth, dict(case, args=list(args), kwargs=kwargs), '%s.%s(*%r, **%r) -> %r, plain -> %r' % (s, meth, args, kwargs, a, b))
     # comparisons
-    check_equality(s, [('itself', s, True)] + variants_sig(s) + FOREIGN, stats, case, 'signature')
+    second = [('retrieved-a-second-time', twin, True)] if twin is not None else []
+    check_equality(s, [('itself', s, True)] + second + variants_sig(s) + FOREIGN, stats, case, 'signature')
     check_hash(s, p, stats, case, 'signature')
     for q in s.parameters.values():
         c = dict(case, parameter=q.name)
-        check_equality(q, [('itself', q, True)] + variants_param(q) + FOREIGN, stats, c, 'parameter')
+        second = [('retrieved-a-second-time', twin.parameters[q.name], True)] if twin is not None else []
+        check_equality(q, [('itself', q, True)] + second + variants_param(q) + FOREIGN, stats, c, 'parameter')
         check_hash(q, plain_param(q), stats, c, 'parameter')
     check_replace(s, stats, case)
     if enum:
@@ -222,6 +224,27 @@ def check_replace(s, stats, case):
     if list(r.parameters.values()) != [] or r.sources is not s.sources:
         stats.fail('C14/replace/signature-override-empty', case, '%s.replace(parameters=[]) -> %s' % (s, r))
     r = s.replace(upgraded_return_annotation=signatures.EmptyAnnotation) if hasattr(signatures, 'EmptyAnnotation') else None
+    # a parameter list that mixes the signature's own parameters with a plain inspect.Parameter (deprecated but accepted): only the
+    # plain one is new, the others are kept with everything they carry
+    import inspect
+    import warnings
+    if 'zz_extra' not in s.parameters:
+        extra = inspect.Parameter('zz_extra', inspect.Parameter.KEYWORD_ONLY, default=0)
+        cut = len(ps) - 1 if ps and ps[-1].kind == VK else len(ps)
+        with warnings.catch_warnings():
+            warnings.simplefilter('ignore')
+            r = s.replace(parameters=ps[:cut] + [extra] + ps[cut:])
+            back = r.replace(parameters=[q for q in r.parameters.values() if q.name != 'zz_extra'])
+        for q in ps:
+            k = r.parameters[q.name]
+            if type(k) is not type(q) or k.upgraded_annotation is not q.upgraded_annotation or k.sources != q.sources or k.source_depths != q.source_depths or k != q:
+                stats.fail('C14/replace/signature-parameters-mixed', dict(case, parameter=q.name),
+                           '%s.replace(parameters=<its own parameters and one plain inspect.Parameter>): parameter %s comes back without its type, '
+                           'upgraded annotation or sources (%r, %r, %r)' % (s, q, k.upgraded_annotation, k.sources, k.source_depths))
+                break
+        else:
+            if back != s or s != back:
+                stats.fail('C14/replace/signature-parameters-mixed', case, '%s: adding a plain parameter with replace() and removing it again gives an unequal signature' % s)
     for q in ps:
         for kw in ({'sources': []}, {'source_depths': {}}):
             r = q.replace(**kw)
@@ -248,7 +271,7 @@ def check_replace(s, stats, case):
 GLOBS = {'T': type('T', (), {})}
 
 
-def universe_sigs(spec, mode, future):
+def universe_sigs(spec, mode, future, twin=False):
     """Real function with decorations -> retrieved signature."""
     from sigtools import signatures
     import __future__
@@ -259,10 +282,16 @@ def universe_sigs(spec, mode, future):
         if mode == 3:
             # postponed annotations that cannot be evaluated (names only imported for type checkers)
             a = ['Missing', 'also.missing', 'T'][i % 3]
+        if mode == 4:
+            # ... because evaluation raises something else than NameError (a class that is generic only in its stub file,
+            # an attribute that only exists for the type checker)
+            a = ['T[int]', 'T.only_in_stubs', 'T'][i % 3]
         ps.append(p._replace(default=d, ann=a))
-    ret = {0: '', 1: " -> 'ret'", 2: ' -> T', 3: ' -> MissingToo'}[mode]
+    ret = {0: '', 1: " -> 'ret'", 2: ' -> T', 3: ' -> MissingToo', 4: ' -> T[str]'}[mode]
     src = 'def f(%s)%s:\n    return 0\n' % (universe.spec_text(tuple(ps)), ret)
     g = realfn.load(src, dict(GLOBS), register=False, flags=__future__.annotations.compiler_flag if future else 0)
+    if twin:
+        return signatures.signature(g['f']), signatures.signature(g['f'])
     return signatures.signature(g['f'])
 
 
@@ -270,8 +299,9 @@ def shard_universe(arg):
     specs, = arg
     st = Stats()
     for spec in specs:
-        for mode, future in ((0, False), (1, False), (2, False), (2, True), (3, True)):
-            check_signature_object(universe_sigs(spec, mode, future), 'universe/mode%d%s' % (mode, '/postponed' if future else ''), st, enum=True)
+        for mode, future in ((0, False), (1, False), (2, False), (2, True), (3, True), (4, True)):
+            sig, again = universe_sigs(spec, mode, future, twin=True)
+            check_signature_object(sig, 'universe/mode%d%s' % (mode, '/postponed' if future else ''), st, enum=True, twin=again)
     return st
 
 
@@ -313,12 +343,13 @@ def shard_discovery(arg):
 
 def st_case():
     from hypothesis import strategies as st
-    return st.tuples(universe.st_spec(('a', 'b', 'c', 'd', 'e'), 5, ('args',), ('kwargs',)), st.sampled_from([0, 1, 2]), st.booleans())
+    return st.tuples(universe.st_spec(('a', 'b', 'c', 'd', 'e'), 5, ('args',), ('kwargs',)), st.sampled_from([0, 1, 2, 3, 4]), st.booleans())
 
 
 def check_hyp(case, stats):
     spec, mode, future = case
-    check_signature_object(universe_sigs(spec, mode, future and mode == 2), 'hypothesis/mode%d' % mode, stats)
+    sig, again = universe_sigs(spec, mode, (future and mode == 2) or mode in (3, 4), twin=True)
+    check_signature_object(sig, 'hypothesis/mode%d' % mode, stats, twin=again)
 
 
 def shard_hyp(arg):
@@ -349,6 +380,13 @@ def run(ctx):
 def replay(case, stats):
     # replay files of this check carry the signature text and origin; rebuild through support-free path
     from sigtools import signatures
+    import __future__
     src = 'def f%s:\n    return 0\n' % case['signature']
-    g = realfn.load(src, dict(GLOBS, **{'ret': 'ret'}), register=False)
-    check_signature_object(signatures.signature(g['f']), case.get('origin', 'replay'), stats)
+    origin = case.get('origin', 'replay')
+    future = 'postponed' in origin or 'mode3' in origin or 'mode4' in origin
+    if future:
+        # the signature text shows postponed annotations as quoted strings
+        import re
+        src = re.sub(r"(:|->) '([^']*)'", r'\1 \2', src)
+    g = realfn.load(src, dict(GLOBS, **{'ret': 'ret'}), register=False, flags=__future__.annotations.compiler_flag if future else 0)
+    check_signature_object(signatures.signature(g['f']), origin, stats, twin=signatures.signature(g['f']))
